@@ -204,6 +204,21 @@ def rule_labels(P, rid):
                       "position %s is recorded for compression without `< 0x4000`: a later `ref | 0xc000` silently truncates it to 14 bits" % show(pos))
     if not adds:
         r.brk("no dnslabel_table_add call")
+    # the table lookup hands out a position only for the *same* remaining name: whole-string equality, not a prefix match
+    g = P.fn("dnslabel_table_get_pos")
+    lab = g.params[1][0]
+    for rt in g.returns():
+        v = strip(rt.e[1])
+        if is_e(v, "int"):
+            continue
+        gs = [negate_truth(c, t) for c, t, _ in g.guards_at(rt.bid)]
+        exact = any((not t) and is_e(strip(c), "call") and callee_name(strip(c)) in ("strcmp", "evutil_ascii_strcasecmp", "strcasecmp") and
+                    any(eq(strip(a), ["var", lab, "param"]) for a in strip(c)[2]) for c, t in gs)
+        r.inst(("lookup", rt.n), {"site": rt.where(), "returns": show(v), "under_whole_name_equality": exact})
+        if not exact:
+            r.bad("K4:dnslabel_table_get_pos:not-whole-name-equality", rt.where(), g.name,
+                  "a compression position is returned without a whole-string comparison of the remaining name with the remembered one: a name that merely "
+                  "starts with a remembered name would be replaced by a pointer to it and lose its tail")
     ptr = [el for el in f.elems() if el.e[0] == "asg" and any(is_e(q, "bin") and q[1] == "|" and is_e(strip(q[3]), "int") and strip(q[3])[1] == 0xc000 for q in walk(el.e))]
     r.inst("marker", {"pointer_emission": [show(e.e)[:50] for e in ptr]})
     if not ptr:
